@@ -46,6 +46,50 @@ theorem tstep_now {cfg : Cfg} {sh : Sh} {t : Thread} {ch : Choice} {r : TRes}
   unfold Thread.loadDeadline; repeat' split
   all_goals rfl
 
+/-! ## the read buffer: leftover bytes and queued messages -/
+
+theorem take_none {l : Nat} {q : List Nat} {b : Nat} (h : take l q b = none) : l = 0 ∧ q = [] := by
+  unfold take at h
+  split at h
+  · contradiction
+  · split at h
+    · split at h <;> contradiction
+    · exact ⟨by omega, rfl⟩
+
+theorem take_some_pos {l : Nat} {q : List Nat} {b : Nat} {r : RdRes} (h : take l q b = some r) :
+    0 < l + q.length := by
+  unfold take at h
+  split at h
+  · omega
+  · split at h
+    · simp only [List.length_cons]; omega
+    · contradiction
+
+theorem more_of_pos {l : Nat} {q : List Nat} (h : 0 < l + q.length) : more l q = true := by
+  unfold more
+  cases q with
+  | nil => simp at h; simp [h]
+  | cons m q => simp
+
+theorem pos_of_more {l : Nat} {q : List Nat} (h : more l q = true) : 0 < l + q.length := by
+  unfold more at h
+  cases q with
+  | nil => simp at h; simp [h]
+  | cons m q => simp only [List.length_cons]; omega
+
+/-- a partial read leaves exactly the bytes that did not fit: the data handed out plus what stays
+(leftover + queued messages) is what was there -/
+theorem take_conserves {l : Nat} {q : List Nat} {b : Nat} {r : RdRes} (h : take l q b = some r) :
+    r.n + r.left + r.queue.sum = l + q.sum ∧ r.n ≤ b := by
+  unfold take at h
+  split at h
+  · cases h; simp only; omega
+  · split at h
+    · split at h
+      · cases h; simp only [List.sum_cons]; omega
+      · cases h; simp only [List.sum_cons]; omega
+    · contradiction
+
 /-! ## the private timer of a caller -/
 
 /-- the caller is between RESET_TIMER and the `select` (its `c` and timer reflect `seen`) -/
@@ -69,14 +113,14 @@ theorem TimerInv.mono {n n' : Time} {t : Thread} (h : TimerInv n t) (hn : n ≤ 
   · exact Or.inl h1
   · exact Or.inr ⟨h1, h2, Nat.le_trans h3 hn⟩
 
-theorem TimerInv.finish {now : Time} {t : Thread} (h : TimerInv now t) (r : Ret) (n : Time) :
-    TimerInv now (t.finish r n) := by
+theorem TimerInv.finish {now : Time} {t : Thread} (h : TimerInv now t) (r : Ret) (n : Time) (g : Nat) :
+    TimerInv now (t.finish r n g) := by
   refine ⟨?_, ?_, ?_, ?_, ?_⟩ <;> simp [Thread.finish, Thread.waiting]
   intro hc; exact (h.fresh hc).2.2
 
-theorem TimerInv.call {now : Time} (k : Kind) (b : Bool) :
-    TimerInv now { kind := k, pc := .reset, dieAtCall := b } := by
-  refine ⟨?_, ?_, ?_, ?_, ?_⟩ <;> simp [Thread.waiting]
+theorem TimerInv.call {now : Time} (k : Kind) (b : Bool) (n : Nat) :
+    TimerInv now (Thread.fresh k b n) := by
+  refine ⟨?_, ?_, ?_, ?_, ?_⟩ <;> simp [Thread.waiting, Thread.fresh]
 
 theorem TimerInv.load {now : Time} {cfg : Cfg} {t : Thread} (hc : cfg.repoint = true)
     (h : TimerInv now t) (hpc : t.pc = .reset) (cell : Option Time) (pc' : Pc) (hp : pc' ≠ .reset) :
@@ -180,7 +224,7 @@ theorem tstep_timerInv {cfg : Cfg} {sh : Sh} {t : Thread} {ch : Choice} {r : TRe
     (hs : tstep cfg sh t ch = some r) : TimerInv sh.now r.t := by
   tstep_cases hs
   all_goals first
-    | exact h.finish _ _
+    | exact h.finish _ _ _
     | exact h.load_check hc ‹_› _
     | exact h.load_pre hc ‹_› _
     | exact h.stopDrain
@@ -199,7 +243,7 @@ theorem step_forall_ths {cfg : Cfg} (Q : Time → Thread → Prop)
     (mono : ∀ {n n' : Time} {t : Thread}, n ≤ n' → Q n t → Q n' t)
     (hT : ∀ {sh : Sh} {t : Thread} {ch : Choice} {r : TRes}, Q sh.now t → tstep cfg sh t ch = some r → Q sh.now r.t)
     (hF : ∀ {now : Time} {t t' : Thread}, Q now t → t.fire now = some t' → Q now t')
-    (hcall : ∀ (now : Time) (k : Kind) (b : Bool), Q now { kind := k, pc := .reset, dieAtCall := b })
+    (hcall : ∀ (now : Time) (k : Kind) (b : Bool) (n : Nat), Q now (Thread.fresh k b n))
     (hidle : ∀ {now : Time} {t : Thread}, Q now t → Q now { t with pc := .idle })
     {s s' : State} {l : Label} (h : ∀ t ∈ s.ths, Q s.sh.now t) (hs : step cfg s l = some s') :
     ∀ t ∈ s'.ths, Q s'.sh.now t := by
@@ -230,7 +274,7 @@ theorem step_forall_ths {cfg : Cfg} (Q : Time → Thread → Prop)
         · subst h1; exact hF (h t (List.mem_of_getElem? hi)) hf
       · contradiction
     · contradiction
-  case call i =>
+  case call i b =>
     split at hs
     · rename_i t hi
       split at hs
@@ -238,7 +282,7 @@ theorem step_forall_ths {cfg : Cfg} (Q : Time → Thread → Prop)
         intro t' ht'
         rcases List.mem_or_eq_of_mem_set ht' with h1 | h1
         · exact h t' h1
-        · subst h1; exact hcall _ _ _
+        · subst h1; exact hcall _ _ _ _
       · contradiction
     · contradiction
   case collect i =>
@@ -276,7 +320,7 @@ theorem reach_timerInv {cfg : Cfg} {kinds : List Kind} {wnd infl : Nat} {s : Sta
   · intro s l s' _ ih hs
     exact step_forall_ths (fun n t => TimerInv n t) (fun hn h => h.mono hn)
       (fun h hs => tstep_timerInv hc hr h hs) (fun h hf => h.fire hf)
-      (fun _ k b => TimerInv.call k b) (fun h => h.toIdle) ih hs
+      (fun _ k b n => TimerInv.call k b n) (fun h => h.toIdle) ih hs
 
 /-! ## enabledness, quiescence, tick -/
 
@@ -327,7 +371,11 @@ theorem tstep_data {cfg : Cfg} {sh : Sh} {t : Thread} {ch : Choice} {r : TRes}
     (hchain : cfg.chain = true) (hs : tstep cfg sh t ch = some r) (hpos : 0 < r.sh.readable) :
     0 < sh.readable ∧ ((sh.rtok = true ∨ t.aboutToCheck) → (r.sh.rtok = true ∨ r.t.aboutToCheck)) := by
   tstep_cases hs
-  all_goals simp_all [Thread.aboutToCheck, Thread.finish, Thread.stopDrain]
+  all_goals simp_all [Thread.aboutToCheck, Thread.finish, Thread.stopDrain, Sh.readable]
+  all_goals first
+    | exact ⟨take_some_pos ‹_›, Or.inr (more_of_pos hpos)⟩
+    | (have := take_none ‹_›; simp [this.1, this.2] at hpos)
+    | skip
 
 /-- readable data ⇒ a wake-up token is pending or some reader is about to test for data -/
 def DataInv (s : State) : Prop :=
@@ -390,7 +438,7 @@ theorem step_dataInv {cfg : Cfg} {s s' : State} {l : Label} (hchain : cfg.chain 
           · exact Or.inr ⟨j, t0, by simp [hij, hj], h0⟩
       · contradiction
     · contradiction
-  case call i =>
+  case call i b =>
     split at hs
     · rename_i t hi
       split at hs
@@ -428,10 +476,25 @@ theorem step_dataInv {cfg : Cfg} {s s' : State} {l : Label} (hchain : cfg.chain 
     · contradiction
   case pump =>
     split at hs <;> cases hs <;> exact h
-  case arrive k =>
-    cases hs; unfold DataInv; intro hpos; simp only at hpos ⊢; left; simp [hpos]
+  case arrive ms =>
+    cases hs; unfold DataInv; intro hpos
+    simp only [Sh.readable] at hpos ⊢
+    by_cases hq : s.sh.queue ++ ms = []
+    · have hq' := List.append_eq_nil_iff.mp hq
+      have hold : 0 < s.sh.readable := by
+        simp only [Sh.readable]; rw [hq] at hpos; simp at hpos; omega
+      rcases h hold with h1 | h1
+      · left; simp [h1]
+      · exact Or.inr h1
+    · left; cases hc : (s.sh.queue ++ ms) with
+      | nil => exact absurd hc hq
+      | cons a l => simp
   case opn j =>
-    cases hs; unfold DataInv; intro hpos; simp only at hpos ⊢; left; simp [hpos]
+    cases hs; unfold DataInv; intro hpos
+    have hold : 0 < s.sh.readable := by simpa [Sh.readable] using hpos
+    rcases h hold with h1 | h1
+    · left; simp [h1]
+    · exact Or.inr h1
   case setRD d => cases hs; unfold DataInv; intro _; left; rfl
   case setD d => cases hs; unfold DataInv; intro _; left; rfl
   all_goals (cases hs; exact h)
@@ -439,7 +502,7 @@ theorem step_dataInv {cfg : Cfg} {s s' : State} {l : Label} (hchain : cfg.chain 
 theorem reach_dataInv {cfg : Cfg} {kinds : List Kind} {wnd infl : Nat} {s : State}
     (hchain : cfg.chain = true) (h : Reach cfg (init kinds wnd infl) s) : DataInv s := by
   refine Reach.induct (P := DataInv) ?_ ?_ h
-  · unfold DataInv; intro hpos; simp [init] at hpos
+  · unfold DataInv; intro hpos; simp [init, Sh.readable] at hpos
   · intro s l s' _ ih hs; exact step_dataInv hchain ih hs
 
 /-! ## the kinds of the caller slots are static -/
@@ -488,7 +551,7 @@ theorem step_kinds {cfg : Cfg} {s s' : State} {l : Label} (hs : step cfg s l = s
         cases hs; exact key i t t1 hi (fire_same hf).1
       · contradiction
     · contradiction
-  case call i =>
+  case call i b =>
     split at hs
     · rename_i t hi
       split at hs
@@ -541,12 +604,12 @@ theorem EnvRel.refl (a : Sh) : EnvRel a a :=
   ⟨Nat.le_refl _, Or.inl ⟨rfl, id⟩, Or.inl ⟨rfl, id⟩, Or.inl ⟨rfl, rfl, id⟩, Or.inl ⟨rfl, id⟩⟩
 
 theorem step_env {cfg : Cfg} {s s' : State} {l : Label} (hs : step cfg s l = some s') :
-    (∃ i ch, l = .thr i ch) ∨ (∃ i, l = .fire i) ∨ (∃ i, l = .call i) ∨ (∃ i, l = .collect i) ∨
+    (∃ i ch, l = .thr i ch) ∨ (∃ i, l = .fire i) ∨ (∃ i b, l = .call i b) ∨ (∃ i, l = .collect i) ∨
       (s'.ths = s.ths ∧ EnvRel s.sh s'.sh) := by
   cases l <;> simp only [step] at hs
   case thr i ch => exact Or.inl ⟨i, ch, rfl⟩
   case fire i => exact Or.inr (Or.inl ⟨i, rfl⟩)
-  case call i => exact Or.inr (Or.inr (Or.inl ⟨i, rfl⟩))
+  case call i b => exact Or.inr (Or.inr (Or.inl ⟨i, b, rfl⟩))
   case collect i => exact Or.inr (Or.inr (Or.inr (Or.inl ⟨i, rfl⟩)))
   case tick t1 =>
     split at hs
@@ -555,6 +618,17 @@ theorem step_env {cfg : Cfg} {s s' : State} {l : Label} (hs : step cfg s l = som
       cases hs
       exact Or.inr (Or.inr (Or.inr (Or.inr ⟨rfl, ⟨Nat.le_of_lt hc.1.1, Or.inl ⟨rfl, id⟩, Or.inl ⟨rfl, id⟩, Or.inl ⟨rfl, rfl, id⟩, Or.inl ⟨rfl, id⟩⟩⟩)))
     · contradiction
+  case arrive ms =>
+    cases hs
+    refine Or.inr (Or.inr (Or.inr (Or.inr ⟨rfl, ⟨Nat.le_refl _, Or.inl ⟨rfl, fun h => by simp [h]⟩,
+      Or.inl ⟨rfl, fun h => by simp [h]⟩, Or.inl ⟨rfl, rfl, fun h => by simp [h]⟩, ?_⟩⟩)))
+    by_cases hq : s.sh.queue ++ ms = []
+    · have hq' := List.append_eq_nil_iff.mp hq
+      exact Or.inl ⟨by simp [Sh.readable, hq'.2], fun h => by simp [h]⟩
+    · refine Or.inr (fun _ => ?_)
+      cases hc : (s.sh.queue ++ ms) with
+      | nil => exact absurd hc hq
+      | cons a l => simp
   case pump =>
     split at hs
     · cases hs; exact Or.inr (Or.inr (Or.inr (Or.inr ⟨rfl, EnvRel.refl _⟩)))
@@ -586,14 +660,14 @@ theorem step_forall_single {cfg : Cfg} (k : Kind) (Q : Sh → Thread → Prop)
     (hother : ∀ {sh : Sh} {t t0 : Thread} {ch : Choice} {r : TRes},
       t.kind ≠ k → tstep cfg sh t ch = some r → Q sh t0 → Q r.sh t0)
     (hfire : ∀ {sh : Sh} {t t' : Thread}, Q sh t → t.fire sh.now = some t' → Q sh t')
-    (hcall : ∀ (sh : Sh) (b : Bool), Q sh { kind := k, pc := .reset, dieAtCall := b })
+    (hcall : ∀ (sh : Sh) (b : Bool) (n : Nat), Q sh (Thread.fresh k b n))
     (hidle : ∀ {sh : Sh} {t : Thread}, Q sh t → Q sh { t with pc := .idle })
     (henv : ∀ {a b : Sh} {t : Thread}, EnvRel a b → Q a t → Q b t)
     {s s' : State} {l : Label} (hsingle : SingleK k (s.ths.map (·.kind)))
     (h : ∀ (i : Nat) (t : Thread), s.ths[i]? = some t → t.kind = k → Q s.sh t)
     (hs : step cfg s l = some s') :
     ∀ (i : Nat) (t : Thread), s'.ths[i]? = some t → t.kind = k → Q s'.sh t := by
-  rcases step_env hs with ⟨i, ch, rfl⟩ | ⟨i, rfl⟩ | ⟨i, rfl⟩ | ⟨i, rfl⟩ | ⟨hths, hrel⟩
+  rcases step_env hs with ⟨i, ch, rfl⟩ | ⟨i, rfl⟩ | ⟨i, b, rfl⟩ | ⟨i, rfl⟩ | ⟨hths, hrel⟩
   · simp only [step] at hs
     split at hs
     · rename_i t hi
@@ -642,9 +716,9 @@ theorem step_forall_single {cfg : Cfg} (k : Kind) (Q : Sh → Thread → Prop)
         · subst hij
           simp [getElem?_lt hi] at hj
           subst hj
-          simp only at hk
+          simp only [Thread.fresh] at hk
           rw [hk]
-          exact hcall _ _
+          exact hcall _ _ _
         · simp [hij] at hj
           exact h j t0 hj hk
       · contradiction
@@ -683,7 +757,7 @@ theorem tstep_frame_nonread {cfg : Cfg} {sh : Sh} {t : Thread} {ch : Choice} {r 
     (hk : t.kind ≠ .read) (hs : tstep cfg sh t ch = some r) :
     r.sh.rd = sh.rd ∧ r.sh.rtok = sh.rtok ∧ r.sh.readable = sh.readable := by
   tstep_cases hs
-  all_goals simp_all
+  all_goals simp_all [Sh.readable]
 
 theorem tstep_frame_nonwrite {cfg : Cfg} {sh : Sh} {t : Thread} {ch : Choice} {r : TRes}
     (hk : t.kind ≠ .write) (hs : tstep cfg sh t ch = some r) :
@@ -714,7 +788,11 @@ theorem tstep_dataR {cfg : Cfg} {sh : Sh} {t : Thread} {ch : Choice} {r : TRes}
     (hk : t.kind = .read) (h : DataR sh t) (hs : tstep cfg sh t ch = some r) : DataR r.sh r.t := by
   unfold DataR at *
   tstep_cases hs
-  all_goals simp_all [Thread.finish]
+  all_goals simp_all [Thread.finish, Sh.readable]
+  all_goals first
+    | (have := take_none ‹_›; omega)
+    | (have := take_none ‹_›; simp [this.1, this.2])
+    | skip
 
 theorem reach_dataR {cfg : Cfg} {kinds : List Kind} {wnd infl : Nat} {s : State}
     (hsingle : SingleK .read kinds) (h : Reach cfg (init kinds wnd infl) s) :
@@ -734,7 +812,7 @@ theorem reach_dataR {cfg : Cfg} {kinds : List Kind} {wnd infl : Nat} {s : State}
     · intro sh t t' h hf hp
       have hs := fire_same hf
       exact h (hs.2.1 ▸ hp)
-    · intro sh b; simp [DataR]
+    · intro sh b n; simp [DataR, Thread.fresh]
     · intro sh t _; simp [DataR]
     · intro a b t hrel h hp hpos
       rcases hrel.data with ⟨h1, h2⟩ | h1
@@ -760,7 +838,7 @@ theorem reach_cohR {cfg : Cfg} {kinds : List Kind} {wnd infl : Nat} {s : State} 
       have hs := fire_same hf
       have hw' : t.waiting := by simpa [Thread.waiting, hs.2.1] using hw
       rw [hs.2.2.1]; exact h hw'
-    · intro sh b; simp [CohR, Thread.waiting]
+    · intro sh b n; simp [CohR, Thread.waiting, Thread.fresh]
     · intro sh t _; simp [CohR, Thread.waiting]
     · intro a b t hrel h hw
       rcases hrel.rd with ⟨h1, h2⟩ | h1
@@ -788,7 +866,7 @@ theorem reach_cohW {cfg : Cfg} {kinds : List Kind} {wnd infl : Nat} {s : State} 
       have hs := fire_same hf
       have hw' : t.waiting := by simpa [Thread.waiting, hs.2.1] using hw
       rw [hs.2.2.1]; exact h hw'
-    · intro sh b; simp [CohW, Thread.waiting]
+    · intro sh b n; simp [CohW, Thread.waiting, Thread.fresh]
     · intro sh t _; simp [CohW, Thread.waiting]
     · intro a b t hrel h hw
       rcases hrel.wd with ⟨h1, h2⟩ | h1
@@ -815,7 +893,7 @@ theorem reach_roomW {cfg : Cfg} {kinds : List Kind} {wnd infl : Nat} {s : State}
     · intro sh t t' h hf hp
       have hs := fire_same hf
       exact h (hs.2.1 ▸ hp)
-    · intro sh b; simp [RoomW]
+    · intro sh b n; simp [RoomW, Thread.fresh]
     · intro sh t _; simp [RoomW]
     · intro a b t hrel h hp hroom
       rcases hrel.room with ⟨h1, h2, h3⟩ | h1
@@ -860,5 +938,189 @@ theorem not_canStep_of_quiescent {cfg : Cfg} {s : State} {t : Thread} (hq : quie
     (ht : t ∈ s.ths) : t.canStep cfg s.sh = false := by
   simp only [quiescent, List.all_eq_true] at hq
   simpa using hq t ht
+
+/-! ## termination of the maximal-progress phases (thread steps and timer expiries only) -/
+
+def armedBit (o : Option Time) : Nat := if o.isSome then 1 else 0
+
+theorem armedBit_le (o : Option Time) : armedBit o ≤ 1 := by unfold armedBit; split <;> omega
+
+def Thread.rank (t : Thread) : Nat :=
+  (match t.pc with
+    | .woken => 10 | .reset => 8 | .pre => 6 | .check => 4 | .sel => 2 | .idle => 0 | .done => 0) + armedBit t.armed
+
+def Thread.act (t : Thread) : Nat := if t.pc = .idle ∨ t.pc = .done then 0 else 1
+
+def Sh.toks (sh : Sh) : Nat := (if sh.rtok = true then 1 else 0) + (if sh.wtok = true then 1 else 0)
+
+/-- every step of a caller decreases `27·active + 9·tokens + rank`: a return decreases `active` (and
+issues at most one chain token), taking a token decreases `tokens` (and raises the rank by 8), every
+other step lowers the rank -/
+theorem tstep_measure {cfg : Cfg} {sh : Sh} {t : Thread} {ch : Choice} {r : TRes}
+    (hs : tstep cfg sh t ch = some r) :
+    27 * r.t.act + 9 * r.sh.toks + r.t.rank < 27 * t.act + 9 * sh.toks + t.rank := by
+  have h1 := armedBit_le t.armed
+  have h2 := armedBit_le (t.loadDeadline cfg sh.rd).armed
+  have h3 := armedBit_le (t.loadDeadline cfg sh.wd).armed
+  tstep_cases hs
+  all_goals simp_all [Thread.rank, Thread.act, Sh.toks, Thread.finish, Thread.stopDrain, armedBit]
+  all_goals (repeat' split)
+  all_goals omega
+
+def Thread.weight (t : Thread) : Nat := 27 * t.act + t.rank
+
+/-- the termination measure of a state -/
+def measure (s : State) : Nat := (s.ths.map Thread.weight).sum + 9 * s.sh.toks
+
+/-- thread steps and timer expiries: what happens between two environment events / ticks -/
+def Label.isProgress : Label → Bool
+  | .thr _ _ => true
+  | .fire _ => true
+  | _ => false
+
+theorem sum_map_set (f : Thread → Nat) {l : List Thread} {i : Nat} {a : Thread} (b : Thread)
+    (h : l[i]? = some a) : ((l.set i b).map f).sum + f a = (l.map f).sum + f b := by
+  induction l generalizing i with
+  | nil => simp at h
+  | cons x xs ih =>
+    cases i with
+    | zero => simp at h; subst h; simp; omega
+    | succ i =>
+      simp at h
+      have := ih h
+      simp only [List.set_cons_succ, List.map_cons, List.sum_cons]
+      omega
+
+theorem fire_weight {now : Time} {t t' : Thread} (h : t.fire now = some t') : t'.weight < t.weight := by
+  unfold Thread.fire at h
+  split at h
+  · rename_i w hw
+    split at h
+    · cases h
+      simp [Thread.weight, Thread.rank, Thread.act, armedBit, hw]
+    · contradiction
+  · contradiction
+
+theorem step_measure {cfg : Cfg} {s s' : State} {l : Label} (hl : l.isProgress = true)
+    (hs : step cfg s l = some s') : measure s' < measure s := by
+  cases l <;> simp [Label.isProgress] at hl <;> simp only [step] at hs
+  case thr i ch =>
+    split at hs
+    · rename_i t hi
+      split at hs
+      · rename_i r hr
+        cases hs
+        have h1 := sum_map_set Thread.weight r.t hi
+        have h2 := tstep_measure hr
+        simp only [measure, Thread.weight] at *
+        omega
+      · contradiction
+    · contradiction
+  case fire i =>
+    split at hs
+    · rename_i t hi
+      split at hs
+      · rename_i t1 hf
+        cases hs
+        have h1 := sum_map_set Thread.weight t1 hi
+        have h2 := fire_weight hf
+        simp only [measure] at *
+        omega
+      · contradiction
+    · contradiction
+
+/-- a maximal-progress phase from `s` has at most `measure s` steps -/
+theorem run_measure {cfg : Cfg} {s s' : State} (ls : List Label) (hall : ∀ l ∈ ls, l.isProgress = true)
+    (hr : run cfg s ls = some s') : ls.length + measure s' ≤ measure s := by
+  induction ls generalizing s with
+  | nil => simp [run] at hr; subst hr; simp
+  | cons l ls ih =>
+    simp only [run] at hr
+    split at hr
+    · rename_i s1 h1
+      have hm := step_measure (hall l (by simp)) h1
+      have := ih (fun l' hl' => hall l' (by simp [hl'])) hr
+      simp only [List.length_cons]; omega
+    · contradiction
+
+/-- control points that exist for the kind of caller (`pre` is Write's poll; Accept has a single `select`) -/
+def PcOK (t : Thread) : Prop :=
+  (t.kind = .read → t.pc ≠ .pre) ∧ (t.kind = .accept → t.pc ≠ .pre ∧ t.pc ≠ .check ∧ t.pc ≠ .woken)
+
+theorem tstep_pcOK {cfg : Cfg} {sh : Sh} {t : Thread} {ch : Choice} {r : TRes}
+    (h : PcOK t) (hs : tstep cfg sh t ch = some r) : PcOK r.t := by
+  unfold PcOK at *
+  tstep_cases hs
+  all_goals simp_all [Thread.finish, Thread.stopDrain]
+  all_goals (repeat' split)
+  all_goals simp_all
+
+theorem reach_pcOK {cfg : Cfg} {kinds : List Kind} {wnd infl : Nat} {s : State}
+    (h : Reach cfg (init kinds wnd infl) s) : ∀ t ∈ s.ths, PcOK t := by
+  refine Reach.induct (P := fun s => ∀ t ∈ s.ths, PcOK t) ?_ ?_ h
+  · intro t ht
+    simp only [init, List.mem_map] at ht
+    obtain ⟨k, _, rfl⟩ := ht
+    simp [PcOK]
+  · intro s l s' _ ih hs
+    exact step_forall_ths (fun _ t => PcOK t) (fun _ h => h) (fun h hs => tstep_pcOK h hs)
+      (fun h hf => by
+        have := fire_same hf
+        unfold PcOK at *; rw [this.1, this.2.1]; exact h)
+      (fun _ k b n => by simp [PcOK, Thread.fresh]) (fun h => by unfold PcOK at *; simp_all) ih hs
+
+/-- every control point other than the `select` has an enabled continuation -/
+theorem canStep_active {cfg : Cfg} {sh : Sh} {t : Thread} (hok : PcOK t)
+    (hp : t.pc = .reset ∨ t.pc = .pre ∨ t.pc = .check ∨ t.pc = .woken) : t.canStep cfg sh = true := by
+  unfold PcOK at hok
+  cases hk : t.kind
+  case read =>
+    rcases hp with hp | hp | hp | hp
+    · apply canStep_of_choice .go; simp [tstep, tstepRead, hk, hp]
+    · exact absurd hp (hok.1 hk)
+    · apply canStep_of_choice .go; simp only [tstep, tstepRead, hk, hp]; split <;> rfl
+    · apply canStep_of_choice .go; simp only [tstep, tstepRead, hk, hp]; split <;> rfl
+  case write =>
+    rcases hp with hp | hp | hp | hp
+    · apply canStep_of_choice .go; simp [tstep, tstepWrite, hk, hp]
+    · by_cases hw : sh.werr = true
+      · apply canStep_of_choice .err; simp [tstep, tstepWrite, hk, hp, hw]
+      · by_cases hd : sh.die = true
+        · apply canStep_of_choice .die; simp [tstep, tstepWrite, hk, hp, hd]
+        · apply canStep_of_choice .go; simp [tstep, tstepWrite, hk, hp, hw, hd]
+    · apply canStep_of_choice .go; simp only [tstep, tstepWrite, hk, hp]; split <;> rfl
+    · apply canStep_of_choice .go; simp only [tstep, tstepWrite, hk, hp]; split <;> rfl
+  case accept =>
+    have := hok.2 hk
+    rcases hp with hp | hp | hp | hp
+    · apply canStep_of_choice .go; simp only [tstep, tstepAccept, hk, hp]; split <;> rfl
+    · exact absurd hp this.1
+    · exact absurd hp this.2.1
+    · exact absurd hp this.2.2
+
+/-- in a quiescent state every caller is idle, has returned, or is blocked in its `select` -/
+theorem quiescent_pcs {cfg : Cfg} {s : State} (hq : quiescent cfg s = true) {t : Thread} (ht : t ∈ s.ths)
+    (hok : PcOK t) : t.pc = .idle ∨ t.pc = .done ∨ t.pc = .sel := by
+  have hns := not_canStep_of_quiescent hq ht
+  cases hp : t.pc
+  case idle => exact Or.inl rfl
+  case done => exact Or.inr (Or.inl rfl)
+  case sel => exact Or.inr (Or.inr rfl)
+  case reset => have := canStep_active (cfg := cfg) (sh := s.sh) hok (Or.inl hp); simp [hns] at this
+  case pre => have := canStep_active (cfg := cfg) (sh := s.sh) hok (Or.inr (Or.inl hp)); simp [hns] at this
+  case check => have := canStep_active (cfg := cfg) (sh := s.sh) hok (Or.inr (Or.inr (Or.inl hp))); simp [hns] at this
+  case woken => have := canStep_active (cfg := cfg) (sh := s.sh) hok (Or.inr (Or.inr (Or.inr hp))); simp [hns] at this
+
+/-- time is never stuck: in a quiescent state a tick to any later instant not beyond the next timer expiry is enabled -/
+theorem tick_enabled {cfg : Cfg} {s : State} {t' : Time} (hq : quiescent cfg s = true) (hlt : s.sh.now < t')
+    (harm : ∀ t ∈ s.ths, ∀ w, t.armed = some w → t' ≤ w) :
+    step cfg s (.tick t') = some { s with sh := { s.sh with now := t' } } := by
+  have : s.ths.all (Thread.armedGe t') = true := by
+    simp only [List.all_eq_true]
+    intro t ht
+    cases ha : t.armed with
+    | none => simp [Thread.armedGe, ha]
+    | some w => simp [Thread.armedGe, ha, harm t ht w ha]
+  simp [step, hq, hlt, this]
 
 end KcpVerif.Wait
